@@ -55,6 +55,11 @@ var famBounds = map[string][3]int64{
 	"iaprefix-siblings":              {164, 0, 58},
 	"ntp-fqdn-suboptions-compressed": {171, 0, 55},
 	"compressed-name-options":        {176, 0, 57},
+	"label-chain-aftr-name":          {75, 0, 19},
+	"label-chain-sip-domains":        {75, 0, 19},
+	"short-names-untyped-codes":      {122, 0, 39},
+	"oro-options-high-codes":         {195, 0, 53},
+	"ptrfan-capitals-in-relays":      {3894, 39451, 537},
 	"minimal-options":                {64, 0, 16},
 	"oro-flood":                      {103, 0, 20},
 	"class-item-overrun":             {483, 0, 16},
